@@ -12,8 +12,10 @@ import (
 	"path/filepath"
 	"runtime"
 	"sort"
+	"strconv"
 	"strings"
 	"sync"
+	"time"
 )
 
 type Obligation struct {
@@ -22,9 +24,9 @@ type Obligation struct {
 	Func   string
 	Pos    string
 	Desc   string
-	Facts  []*Term
-	Goal   *Term
-	Axioms []*Term
+	Facts  []*Term `json:"-"`
+	Goal   *Term   `json:"-"`
+	Axioms []*Term `json:"-"`
 	Props  []string
 	Auto   bool // auto-generated candidate (failure is not a violation)
 	// results
@@ -49,6 +51,7 @@ type Exec struct {
 	boxed         map[*types.Var]bool
 	globalsSeen   map[string]bool
 	aliasDepth    int
+	quickTimeout  int
 	globalFacts   []*Term
 	notes         map[string]bool
 	floatModel    string
@@ -926,11 +929,37 @@ func (ex *Exec) runLoop(st *State, ls loopShape) Outcomes {
 	if spec != nil && spec.Decreases != nil {
 		dec0 = ex.specCtxAt(st, pos).evalTerm(spec.Decreases)
 	}
+	// automatic variant of counted loops (sweep mode): `i < e` gives e - i, `i >= c` gives i - c
+	var autoVar func(s *State) (*Term, bool)
+	var autoDec0 *Term
+	if dec0 == nil && sweepMode {
+		autoVar = ex.autoVariant(ls)
+		if autoVar != nil {
+			if t, ok := autoVar(st); ok {
+				autoDec0 = t
+			} else {
+				autoVar = nil
+			}
+		}
+		if autoVar == nil {
+			if fs, isFor := ls.stmt.(*ast.ForStmt); isFor {
+				ex.assumedExt["termination of the source-driven loop at "+ex.P.Fset.Position(fs.Pos()).String()[len(repoDir)+1:]+" (no counted variant: it ends when the scanner / tokenizer / decoder / demultiplexer it polls reports the end of its finite input)"] = true
+			}
+		}
+	}
 	nb := len(st.facts)
 	exitSt, backs, brks := ex.loopIter(st, ls, ghosts, pos)
 	for _, back := range backs {
 		if spec != nil {
 			ex.applyUses(back, spec.Uses, "step", pos)
+		}
+		if autoVar != nil {
+			if d1, ok := autoVar(back); ok {
+				// the head value is taken under the loop condition (the back edge state assumes it)
+				ex.obligNoAssume(back, "decreases", ls.stmt, fmt.Sprintf("loop%d:auto-variant", ord), And(Ge(autoDec0, IntLit(0)), Lt(d1, autoDec0)))
+			} else {
+				ex.obligNoAssume(back, "decreases", ls.stmt, fmt.Sprintf("loop%d:auto-variant", ord), False)
+			}
 		}
 		for i, inv := range invs {
 			c := ex.specCtxAt(back, pos)
@@ -1072,6 +1101,9 @@ func (ex *Exec) houdiniFrames(st *State, entry map[string]*Term, entryCtr *Term,
 		if cur.kind == 0 && cur.op == "store" {
 			continue // location-precise havoc already
 		}
+		if ls.mod.noFrame[h] {
+			continue
+		}
 		cands = append(cands, autoCand{name: "frame:" + describeHeapName(h), at: func(s *State) *Term {
 			r := BVar("r", SInt)
 			c := s.heapGet(h, heapSorts[h])
@@ -1126,22 +1158,103 @@ func (ex *Exec) houdiniFrames(st *State, entry map[string]*Term, entryCtr *Term,
 		if failedRun {
 			return
 		}
+		// frame candidates of the fields of one struct type usually share their fate: they are
+		// tried together first (one query per back edge) and one by one only when that fails
+		groupOf := func(name string) string {
+			if !strings.HasPrefix(name, "frame:") && !strings.HasPrefix(name, "frame0:") {
+				return ""
+			}
+			if i := strings.LastIndex(name, "."); i > 0 {
+				return name[:i]
+			}
+			return ""
+		}
+		groups := map[string][]int{}
+		var gkeys []string
+		var single []int
+		for ci, c := range active {
+			g := groupOf(c.name)
+			if g == "" || ex.houdiniFailed[failKey{ls.stmt, "group:" + g}] {
+				single = append(single, ci)
+				continue
+			}
+			if _, ok := groups[g]; !ok {
+				gkeys = append(gkeys, g)
+			}
+			groups[g] = append(groups[g], ci)
+		}
+		for _, g := range append([]string(nil), gkeys...) {
+			if len(groups[g]) < 3 {
+				single = append(single, groups[g]...)
+				delete(groups, g)
+			}
+		}
 		var goals []*Obligation
 		var owner []int
+		var gowner []string
 		for _, b := range backs {
-			for ci, c := range active {
+			for _, g := range gkeys {
+				m, ok := groups[g]
+				if !ok {
+					continue
+				}
+				var all []*Term
+				for _, ci := range m {
+					all = append(all, active[ci].at(b))
+				}
+				goals = append(goals, &Obligation{Name: fmt.Sprintf("%s#auto[loop%d:%s.*]#%d", ex.Fn.Key, ord, g, len(goals)), Kind: "auto-inv", Func: ex.Fn.Key,
+					Facts: append([]*Term(nil), b.facts...), Goal: And(all...), Auto: true})
+				owner = append(owner, -1)
+				gowner = append(gowner, g)
+			}
+			for _, ci := range single {
+				c := active[ci]
 				goals = append(goals, &Obligation{Name: fmt.Sprintf("%s#auto[loop%d:%s]#%d", ex.Fn.Key, ord, c.name, len(goals)), Kind: "auto-inv", Func: ex.Fn.Key,
 					Facts: append([]*Term(nil), b.facts...), Goal: c.at(b), Auto: true})
 				owner = append(owner, ci)
+				gowner = append(gowner, "")
 			}
 		}
+		if os.Getenv("GOVC_HOUDINI") != "" {
+			fmt.Fprintf(os.Stderr, "  houdini-round %s loop%d depth=%d round=%d backs=%d groups=%d singles=%d goals=%d\n", ex.Fn.Key, ord, ex.probeDepth, round, len(backs), len(groups), len(single), len(goals))
+		}
 		ex.quickSolve(goals)
+		ex.quickTimeout = 0
 		failed := map[int]bool{}
+		splitGroups := map[string]bool{}
 		for gi, g := range goals {
 			if g.Status != "proved" {
+				if owner[gi] < 0 {
+					splitGroups[gowner[gi]] = true
+					continue
+				}
 				failed[owner[gi]] = true
 				// failures are monotone (later analyses of this loop assume no more than this one)
 				ex.houdiniFailed[failKey{ls.stmt, active[owner[gi]].name}] = true
+			}
+		}
+		if len(splitGroups) > 0 {
+			var goals2 []*Obligation
+			var owner2 []int
+			for _, b := range backs {
+				for _, g := range gkeys {
+					if !splitGroups[g] {
+						continue
+					}
+					for _, ci := range groups[g] {
+						c := active[ci]
+						goals2 = append(goals2, &Obligation{Name: fmt.Sprintf("%s#auto[loop%d:%s]#s%d", ex.Fn.Key, ord, c.name, len(goals2)), Kind: "auto-inv", Func: ex.Fn.Key,
+							Facts: append([]*Term(nil), b.facts...), Goal: c.at(b), Auto: true})
+						owner2 = append(owner2, ci)
+					}
+				}
+			}
+			ex.quickSolve(goals2)
+			for gi, g := range goals2 {
+				if g.Status != "proved" {
+					failed[owner2[gi]] = true
+					ex.houdiniFailed[failKey{ls.stmt, active[owner2[gi]].name}] = true
+				}
 			}
 		}
 		if len(failed) == 0 {
@@ -1169,38 +1282,64 @@ func (ex *Exec) houdiniFrames(st *State, entry map[string]*Term, entryCtr *Term,
 }
 
 // quickSolve discharges probe obligations synchronously with a short timeout.
+var quickStats struct {
+	calls, goals int
+	stage2       int
+	wall         time.Duration
+	render       time.Duration
+}
+
 func (ex *Exec) quickSolve(goals []*Obligation) {
 	if len(goals) == 0 {
 		return
 	}
+	t0 := time.Now()
+	defer func() {
+		quickStats.calls++
+		quickStats.goals += len(goals)
+		quickStats.wall += time.Since(t0)
+	}()
 	dir := filepath.Join(verifDir, "work", "houdini", sanitizeFile(ex.Fn.Key))
 	os.MkdirAll(dir, 0o755)
-	for i, g := range goals {
-		g.File = filepath.Join(dir, fmt.Sprintf("g%d_%d.smt2", ex.houdiniSeq, i))
-		os.WriteFile(g.File, []byte(g.script(ex.globalFacts)), 0o644)
-	}
-	ex.houdiniSeq++
 	to := 4
 	if sweepMode {
 		to = 3
 	}
-	d := &Discharger{TimeoutS: to, Seed: 1, Par: runtime.NumCPU(), Quick: true}
-	var wg sync.WaitGroup
-	sem := make(chan struct{}, d.Par)
-	for _, g := range goals {
-		g := g
-		wg.Add(1)
-		sem <- struct{}{}
-		go func() {
-			defer wg.Done()
-			defer func() { <-sem }()
-			d.solveFile(g, g.File)
-			if os.Getenv("GOVC_HOUDINI") == "" {
-				os.Remove(g.File)
-			}
-		}()
+	if ex.quickTimeout > 0 {
+		to = ex.quickTimeout
 	}
-	wg.Wait()
+	d := &Discharger{TimeoutS: to, Seed: 1, Par: runtime.NumCPU(), Quick: true}
+	if p := os.Getenv("GOVC_PAR"); p != "" {
+		if n, err := strconv.Atoi(p); err == nil && n > 0 {
+			d.Par = n
+		}
+	}
+	run := func(gs []*Obligation, cone bool) {
+		var wg sync.WaitGroup
+		sem := make(chan struct{}, d.Par)
+		for i, g := range gs {
+			g := g
+			g.File = filepath.Join(dir, fmt.Sprintf("g%d_%d.smt2", ex.houdiniSeq, i))
+			if cone {
+				os.WriteFile(g.File, []byte(g.scriptCone(ex.globalFacts)), 0o644)
+			} else {
+				os.WriteFile(g.File, []byte(g.script(ex.globalFacts)), 0o644)
+			}
+			wg.Add(1)
+			sem <- struct{}{}
+			go func() {
+				defer wg.Done()
+				defer func() { <-sem }()
+				d.solveFile(g, g.File)
+				if os.Getenv("GOVC_HOUDINI_KEEP") == "" {
+					os.Remove(g.File)
+				}
+			}()
+		}
+		wg.Wait()
+		ex.houdiniSeq++
+	}
+	run(goals, false)
 }
 
 func loopBodyPos(s ast.Stmt) token.Pos {
@@ -1459,10 +1598,12 @@ type ModSet struct {
 	// through anything else
 	locs  map[string][]ast.Expr
 	whole map[string]bool
+	// noFrame: written wholesale by a library deserialiser (no frame invariant is attempted)
+	noFrame map[string]bool
 }
 
 func newModSet() *ModSet {
-	return &ModSet{vars: map[*types.Var]bool{}, heaps: map[string]Sort{}, locs: map[string][]ast.Expr{}, whole: map[string]bool{}}
+	return &ModSet{vars: map[*types.Var]bool{}, heaps: map[string]Sort{}, locs: map[string][]ast.Expr{}, whole: map[string]bool{}, noFrame: map[string]bool{}}
 }
 
 func (m *ModSet) addAll(o *ModSet) {
@@ -1472,6 +1613,9 @@ func (m *ModSet) addAll(o *ModSet) {
 	for k, s := range o.heaps {
 		m.heaps[k] = s
 		m.whole[k] = true
+	}
+	for k := range o.noFrame {
+		m.noFrame[k] = true
 	}
 	if o.alloc {
 		m.alloc = true
@@ -1943,4 +2087,61 @@ func (ex *Exec) varCandidates(st, entrySt *State, ls loopShape) []autoCand {
 		}
 	}
 	return out
+}
+
+// autoVariant derives a variant from the condition of a three-clause or while-style loop.
+func (ex *Exec) autoVariant(ls loopShape) func(s *State) (*Term, bool) {
+	fs, ok := ls.stmt.(*ast.ForStmt)
+	if !ok || fs.Cond == nil {
+		return nil
+	}
+	be, ok := unparen(fs.Cond).(*ast.BinaryExpr)
+	if !ok {
+		return nil
+	}
+	if !isInteger(ex.typeOf(be.X)) || !isInteger(ex.typeOf(be.Y)) {
+		return nil
+	}
+	evalQuiet := func(s *State, e ast.Expr) (t *Term, good bool) {
+		nObl := len(ex.Obls)
+		cnt := map[string]int{}
+		for k, c := range ex.oblCount {
+			cnt[k] = c
+		}
+		tmp := s.clone()
+		defer func() {
+			ex.Obls = ex.Obls[:nObl]
+			ex.oblCount = cnt
+			if r := recover(); r != nil {
+				if _, isU := r.(undecided); isU {
+					good = false
+					return
+				}
+				panic(r)
+			}
+		}()
+		return ex.eval(tmp, e).term(), true
+	}
+	var hi, lo ast.Expr
+	extra := int64(0)
+	switch be.Op.String() {
+	case "<":
+		lo, hi = be.X, be.Y
+	case "<=":
+		lo, hi, extra = be.X, be.Y, 1
+	case ">":
+		lo, hi = be.Y, be.X
+	case ">=":
+		lo, hi, extra = be.Y, be.X, 1
+	default:
+		return nil
+	}
+	return func(s *State) (*Term, bool) {
+		a, ok1 := evalQuiet(s, hi)
+		b, ok2 := evalQuiet(s, lo)
+		if !ok1 || !ok2 {
+			return nil, false
+		}
+		return Add(Sub(a, b), IntLit(extra)), true
+	}
 }
